@@ -261,8 +261,6 @@ func (n *simNet) drain() ([]attempt, []served) {
 	return as, rs
 }
 
-var dbgWrap func(net.Conn, string) net.Conn
-
 // takeOp removes and returns the attempts made for one operation.
 func (n *simNet) takeOp(op int) []attempt {
 	n.mu.Lock()
@@ -401,9 +399,6 @@ func (n *simNet) dial(tag string, d *net.Dialer, ctx context.Context, network, a
 		n.mu.Unlock()
 		cl := &simConn{Conn: a, id: id, local: simAddr("192.0.2.1:40000"), remote: simAddr(literal)}
 		sv := &simConn{Conn: b, id: id, local: simAddr(literal), remote: simAddr("192.0.2.1:40000")}
-		if dbgWrap != nil {
-			sv.Conn = dbgWrap(sv.Conn, "server")
-		}
 		select {
 		case n.ln.ch <- sv:
 		case <-n.ln.done:
